@@ -2,6 +2,7 @@ import MaltModel.Conv.SexpTotal
 import MaltModel.Conv.TemplateHyp
 import MaltModel.Conv.SrcClass
 import MaltModel.Conv.Arity
+import MaltModel.Conv.ParserImage
 import MaltModel.Generated.Templates
 /- Driver handlers for the C17 correspondence and the verified context checker (glue only). -/
 namespace Malt.Drv.C17
@@ -36,15 +37,93 @@ def dupAndShared (ls : List Nat) (b : Bindings) : Sexp :=
   let dups := ls.filter fun l => (ls.filter (· == l)).length > 1
   .list [.list (dups.eraseDups.map Sexp.ofNat), .list ((ls.filter fun l => bl.contains l).eraseDups.map Sexp.ofNat)]
 
+def kindName : Expr → String
+  | .name .. => "name" | .const .. => "const" | .attr .. => "attr" | .subscript .. => "subscript" | .call .. => "call"
+  | .keyword .. => "keyword" | .boolop .. => "boolop" | .unary .. => "unary" | .binop .. => "binop" | .compare .. => "compare"
+  | .ifexp .. => "ifexp" | .lambda .. => "lambda" | .seq _ .tuple .. => "tuple" | .seq _ .list .. => "list" | .seq _ .set .. => "set"
+  | .starred .. => "starred" | .namedexpr .. => "namedexpr" | .comp .. => "comp" | .comprehension .. => "comprehension"
+  | .arguments .. => "arguments" | .arg .. => "arg" | .withitem .. => "withitem" | .noneMarker => "none" | .other _ k _ _ => k
+
+def ctxName : Ctx → String
+  | .load => "Load" | .store => "Store" | .del => "Del"
+
+mutual
+/-- named reasons why `exposedOk c e` fails (mirrors `exposedOk`; glue) -/
+partial def exposedWhy (c : Ctx) : Expr → List String
+  | .noneMarker | .name .. => []
+  | .attr _ v _ _ => exposedWhy .load v
+  | .subscript _ v s _ => exposedWhy .load v ++ exposedWhy .load s
+  | .seq _ k es _ => (if k == .set && c != .load then ["set-display-at-" ++ ctxName c] else []) ++ exposedWhys c es
+  | .starred _ v c' => (if c' != c then ["starred-" ++ ctxName c' ++ "-adjusted-to-" ++ ctxName c] else []) ++ exposedWhy c v
+  | .namedexpr .. => ["walrus-target-reached-by-adjuster"]
+  | .call .. | .lambda .. | .comprehension .. | .const .. => if c != .load then ["non-assignable-at-" ++ ctxName c] else []
+  | .other _ k _ kids => (if c != .load then ["non-assignable-at-" ++ ctxName c] else []) ++ (if k == "Dict" then [] else exposedWhys c kids)
+  | .keyword _ _ _ v => nl c ++ exposedWhy c v
+  | .boolop _ _ vs => nl c ++ exposedWhys c vs
+  | .unary _ _ e => nl c ++ exposedWhy c e
+  | .binop _ _ l r => nl c ++ exposedWhy c l ++ exposedWhy c r
+  | .compare _ l _ rs => nl c ++ exposedWhy c l ++ exposedWhys c rs
+  | .ifexp _ t b e => nl c ++ exposedWhy c t ++ exposedWhy c b ++ exposedWhy c e
+  | .comp _ _ es gs => nl c ++ exposedWhys c es ++ exposedWhys c gs
+  | .arguments _ po ar va ko kd kw df => nl c ++ exposedWhys c (po ++ ar ++ va ++ ko ++ kd ++ kw ++ df)
+  | .arg _ _ an => nl c ++ exposedWhys c an
+  | .withitem _ ce ov => nl c ++ exposedWhy c ce ++ (if ov.isEmpty then [] else ["with-item-variable-reached"])
+partial def exposedWhys (c : Ctx) (es : List Expr) : List String := es.flatMap (exposedWhy c)
+partial def nl (c : Ctx) : List String := if c != .load then ["non-assignable-at-" ++ ctxName c] else []
+end
+
+/-- per placeholder occurrence: a shape tag, and the reasons (if any) it falls outside `usesOk` / `argsOk` -/
+def whyCall (t : List Stmt) (b : Bindings) : List String × List String :=
+  let subs := Malt.Conv.SrcClass.subSs t
+  let bkind : Binding → String
+    | .node e => kindName e
+    | .nodes es => "nodes" ++ toString es.length
+    | .stmt _ => "stmt"
+    | .stmts ss => "stmts" ++ toString (min ss.length 2)
+  subs.foldl (fun (acc : List String × List String) e =>
+    match e with
+    | .name _ s c => match b.lookup s with
+        | some bd =>
+            let why := bd.exprs.flatMap fun x => if hasCtxField x then exposedWhy c x else (if c != .load then ["non-assignable-at-" ++ ctxName c] else [])
+            (acc.1 ++ [ctxName c ++ ":" ++ bkind bd], acc.2 ++ why)
+        | none => acc
+    | .arg _ s _ => match b.lookup s with
+        | some bd => (acc.1 ++ ["param:" ++ bkind bd],
+                      acc.2 ++ (if bd.exprs.all isName then [] else ["parameter-placeholder-bound-to-nodes-inserted-uncopied"]))
+        | none => acc
+    | .keyword _ s true _ => match b.lookup s with
+        | some bd => (acc.1 ++ ["kwname:" ++ bkind bd], acc.2)
+        | none => acc
+    | .attr _ _ s _ => match b.lookup s with
+        | some bd => (acc.1 ++ ["attrname:" ++ bkind bd], acc.2)
+        | none => acc
+    | _ => acc) ([], [])
+
 def handlers : List (String × (List Sexp → String)) := [
+  -- c17.why (<template>) (<bindings>) -> ((tmplOk bindingsWf usesOk argsOk sharedOk) (shape...) (reason...))
+  ("c17.why", fun a => run do
+      let [.list ts, bs] := a | none
+      let t ← readSs ts
+      let b ← bindings? bs
+      let (shapes, why) := whyCall t b
+      let fnnames := (b.filter fun p => nameOcc p.1 t == 0 && argOcc p.1 t == 0).map fun p => "ident-or-unused:" ++ p.1
+      pure (toString (Sexp.list [Sexp.list (flags t b ++ [Sexp.ofBool (sharedOk b t)]), Sexp.ofStrs (shapes ++ (if fnnames.isEmpty then [] else ["ident-position"])),
+                                 Sexp.ofStrs why.eraseDups]))),
   -- (ctxOk)   c17.ctxok <stmt>...
   ("c17.ctxok", fun a => run do
       let ss ← readSs a
       pure (toString (Sexp.ofBool (ctxOk ss)))),
-  -- (ctxOk arityOk) of a real tree
+  -- (ctxOk arityOk parserImage (reasons)) of a real tree
   ("c17.treeok", fun a => run do
       let ss ← readSs a
-      pure (toString (Sexp.list [Sexp.ofBool (ctxOk ss), Sexp.ofBool (arityOk ss)]))),
+      let why := (Malt.Conv.SrcClass.subSs ss).flatMap fun e => match e with
+        | .name _ s _ => if pyKeywords.contains s then ["keyword-as-Name:" ++ s] else []
+        | .const _ k r => (if badNumber k r then ["numeric-Constant-not-a-literal:" ++ r] else []) ++ (if badConstKind k then ["Constant-of-kind:" ++ k] else [])
+        | .seq _ .set [] _ => ["empty-set-display"]
+        | .other _ "JoinedStr" _ kids => if fstringParts kids then [] else ["f-string-literal-parts-not-merged"]
+        | _ => []
+      let why := why ++ (if bodiesSs ss then [] else ["empty-block-or-list"])
+      pure (toString (Sexp.list [Sexp.ofBool (ctxOk ss), Sexp.ofBool (arityOk ss), Sexp.ofBool (parserImage ss), Sexp.ofStrs why.eraseDups]))),
   -- which top-level statements / first-level children fail (diagnostics)
   ("c17.ctxbad", fun a => run do
       let ss ← readSs a
